@@ -75,6 +75,7 @@ func main() {
 	rep.Count("packages_loaded", len(prog.Pkgs))
 	rep.Count("files_loaded", len(prog.Files))
 	ctx := &rules.Ctx{Prog: prog, Pkg: prog.Cache, R: rep, Tier: *tier}
+	ctx.Prepare()
 	func() {
 		defer func() {
 			if x := recover(); x != nil {
